@@ -544,6 +544,10 @@ def _nan_to_num(x, copy=True, nan=0.0, posinf=None, neginf=None):
     a = as_sym(x)
     r = _NAN0(a.view(np.ndarray)) if nan == 0.0 else np.frompyfunc(lambda e: _nan_to(e, nan), 1, 1)(a.view(np.ndarray))
     # +-inf -> large finite numbers is not modelled; flag through an impossible-to-miss error if it could matter
+    if not copy and isinstance(x, np.ndarray) and x.dtype == object:
+        # numpy's copy=False writes the result into the argument itself: model the side effect on the caller's array
+        x.view(np.ndarray)[...] = r
+        return x
     return _wrap(r)
 
 
